@@ -256,6 +256,7 @@ class Scheduler:
         self.switches = []                  # (at point index of from-thread, from, to)
         self.trace = []                     # tid per point (compressed later)
         self.where = {}
+        self.locs = [[] for _ in range(nthreads)]    # per thread: (function name, kind) of each of its points
         self.timeout = timeout
         self.timed_out = False
 
@@ -305,6 +306,7 @@ class Scheduler:
             with self.cv:
                 self.points[tid] += 1
                 self.trace.append(tid)
+                self.locs[tid].append(where)
                 key = where[0]
                 self.where[key] = self.where.get(key, 0) + 1
                 others = [t for t in range(self.n) if self.state[t] == "ready" and t != tid]
